@@ -159,6 +159,90 @@ fn check_value(name: &str, bs: &ByteString, s: &str, input: &[u8], out: &mut Vec
     }
 }
 
+/// Views that share storage with their parent (obtained by `slice_ref` and by `split_at`
+/// chains): every operation on a view, comparisons between views of one buffer, and `slice_ref`
+/// of a view with sub-strs of the *parent* (inside, straddling and outside the view).
+fn check_views(name: &str, parent: &ByteString, s: &str, input: &[u8], out: &mut Vec<Violation>, ops: &mut u64) {
+    let pstr: &str = parent;
+    let bounds: Vec<usize> = (0..=s.len()).filter(|i| s.is_char_boundary(*i)).collect();
+    let mut views: Vec<(usize, usize, ByteString)> = vec![];
+    for (x, &i) in bounds.iter().enumerate() {
+        for &j in &bounds[x..] {
+            let by_slice = match mcutil::quiet_catch(|| parent.slice_ref(&pstr[i..j])) {
+                Ok(v) => v,
+                Err(_) => continue, // reported by check_value
+            };
+            let by_split = mcutil::quiet_catch(|| parent.split_at(j).0.split_at(i).1);
+            views.push((i, j, by_slice));
+            if let Ok(v) = by_split {
+                views.push((i, j, v));
+            }
+        }
+    }
+    for (i, j, v) in &views {
+        // a view is a ByteString like any other: the whole matrix again, against the str slice
+        let before = out.len();
+        check_value("view", v, &s[*i..*j], input, out, ops);
+        if out.len() > before {
+            let last = out.last_mut().unwrap();
+            last.signature = format!("view:{}", last.signature);
+            last.summary = format!("on the view {i}..{j} of a {name} value: {}", last.summary);
+            return;
+        }
+        // slice_ref of the view with sub-strs of the parent
+        for (x, &a) in bounds.iter().enumerate() {
+            for &b in &bounds[x..] {
+                *ops += 1;
+                let inside = a >= *i && b <= *j;
+                let r = mcutil::quiet_catch(|| v.slice_ref(&pstr[a..b]));
+                match r {
+                    Ok(got) => {
+                        let got_str: &str = &got;
+                        if a == b {
+                            if !got_str.is_empty() {
+                                out.push(vio("view:slice_ref-empty-subset", input, format!("view {i}..{j} of a {name} value: slice_ref of an empty sub-str returned {:?}", got_str)));
+                                return;
+                            }
+                        } else if !inside {
+                            out.push(vio("view:slice_ref-accepts-str-outside-the-view", input, format!("view {i}..{j} of a {name} value: slice_ref(&parent[{a}..{b}]) returned {:?} although that str is not a sub-slice of the view (it must panic)", got_str)));
+                            return;
+                        } else if got_str != &s[a..b] {
+                            out.push(vio("view:slice_ref-result", input, format!("view {i}..{j} of a {name} value: slice_ref(&parent[{a}..{b}]) returned {:?}", got_str)));
+                            return;
+                        }
+                    }
+                    Err(_) => {
+                        if inside || a == b {
+                            // an empty subset never panics in Bytes::slice_ref; inside must work
+                            out.push(vio("view:slice_ref-panic-on-subslice", input, format!("view {i}..{j} of a {name} value: slice_ref(&parent[{a}..{b}]) panicked on a genuine sub-slice")));
+                            return;
+                        }
+                    }
+                }
+            }
+        }
+    }
+    // comparisons between values that share one buffer
+    let mut all: Vec<(usize, usize, &ByteString)> = views.iter().map(|(i, j, v)| (*i, *j, v)).collect();
+    all.push((0, s.len(), parent));
+    for (i1, j1, v1) in &all {
+        for (i2, j2, v2) in &all {
+            *ops += 1;
+            let (s1, s2) = (&s[*i1..*j1], &s[*i2..*j2]);
+            let ok = (*v1 == *v2) == (s1 == s2)
+                && (**v1 == *s2) == (s1 == s2)
+                && (*v1 == &s2.to_string()) == (s1 == s2)
+                && v1.cmp(v2) == s1.cmp(s2)
+                && v1.partial_cmp(v2) == s1.partial_cmp(s2)
+                && (h(*v1) == h(*v2)) == (h(s1) == h(s2));
+            if !ok {
+                out.push(vio("view:eq-ord-hash-between-views-of-one-buffer", input, format!("{name}: views {i1}..{j1} ({s1:?}) and {i2}..{j2} ({s2:?}) of one buffer: Eq/Ord/Hash disagree with str (== gives {}, str gives {})", *v1 == *v2, s1 == s2)));
+                return;
+            }
+        }
+    }
+}
+
 pub fn run(args: &Args) -> i32 {
     let mut rep = Report::new(args, "exploration");
     let max_len = args.opt_usize("len", args.tier.pick(6, 7));
@@ -267,7 +351,7 @@ pub fn run(args: &Args) -> i32 {
     rep.set("ordered_pairs_compared", pairs);
     rep.set("evaluations", evals);
     rep.set("distinct_nontrivial", valid);
-    rep.set("rule", format!("every byte string of length 0..={max_len} over the 12-byte alphabet {:02x?} through 8 fallible constructors (incl. windows into larger Bytes/BytesMut and arrays); valid ones additionally through 4 infallible constructors, then split_at for every index 0..=len+1, slice_ref of every sub-str and of a foreign str, Eq/Ord/Hash/Display/Debug/String::from/Borrow against str; distinct_nontrivial counts the distinct inputs that are valid UTF-8 (for those the full operation matrix runs; for the others only the constructor verdict and error offsets are compared)", ALPHA));
+    rep.set("rule", format!("every byte string of length 0..={max_len} over the 12-byte alphabet {:02x?} through 8 fallible constructors (incl. windows into larger Bytes/BytesMut and arrays); valid ones additionally through 4 infallible constructors, then split_at for every index 0..=len+1, slice_ref of every sub-str and of a foreign str, Eq/Ord/Hash/Display/Debug/String::from/Borrow against str; for three kinds of backing storage every view i..j (by slice_ref and by split_at chains) goes through the same matrix again, slice_ref of each view with every sub-str of its parent (inside / straddling / outside: panic parity), and Eq/Ord/Hash between all pairs of values sharing one buffer; distinct_nontrivial counts the distinct inputs that are valid UTF-8 (for those the full operation matrix runs; for the others only the constructor verdict and error offsets are compared)", ALPHA));
     rep.set("exhaustive", true);
     rep.sample(json!({"input": [0x61, 0xE2, 0x82, 0xAC], "str": "a€", "split_at": {"0": "ok", "1": "ok", "2": "panic", "3": "panic", "4": "ok", "5": "panic"}}));
     rep.sample(json!({"input": [0xF0, 0x9F, 0x98], "from_utf8": "Err(valid_up_to=0, error_len=None)"}));
@@ -295,6 +379,15 @@ fn check_input(input: &[u8]) -> (Vec<Violation>, bool, u64) {
     if let Ok(s) = want {
         for (name, bs) in infallible(s) {
             check_value(name, &bs, s, input, &mut out, &mut ops);
+        }
+        if out.is_empty() {
+            // values that share storage: a heap buffer, a window into a larger one, a static
+            check_views("Bytes", &ByteString::try_from(Bytes::copy_from_slice(input)).unwrap(), s, input, &mut out, &mut ops);
+            let mut padded = vec![b'x'];
+            padded.extend_from_slice(input);
+            padded.push(b'y');
+            check_views("Bytes(window)", &ByteString::try_from(Bytes::from(padded).slice(1..1 + input.len())).unwrap(), s, input, &mut out, &mut ops);
+            check_views("from_static", &ByteString::from_static(Box::leak(s.to_string().into_boxed_str())), s, input, &mut out, &mut ops);
         }
         let d = ByteString::new();
         if s.is_empty() && (d != *s || ByteString::default() != *s) {
